@@ -4,3 +4,6 @@ package peer
 
 // C31ReconnectPending reports whether the manager's reconnector still tracks addr.
 func C31ReconnectPending(m *Manager, addr string) bool { return m.reconnector.IsPending(addr) }
+
+// C31Reconnector exposes the manager's reconnector (hook dispatch key, GetAttempts).
+func C31Reconnector(m *Manager) *Reconnector { return m.reconnector }
